@@ -71,7 +71,7 @@ impl<B: TextWriter> NanParser<B> {
         for b in ascii {
             match b {
                 // Parse a digit in the payload
-                b'0'..=b'9' if self.payload.is_some() => {
+                b'0'..=b'9' if self.payload.is_some() && self.buf.expecting(b')') => {
                     self.buf
                         .push_payload_digit(self.payload.as_mut().expect("missing buffer"), *b);
                 }
